@@ -5,7 +5,7 @@ import comb_oracle
 import comb_table
 import lib
 
-NAMES = {"C10": ["concat", "catch", "catch_handler", "on_error_resume_next", "repeat", "retry", "while_do", "do_while"],
+NAMES = {"C10": ["concat", "for_in", "catch", "catch_handler", "on_error_resume_next", "repeat", "retry", "while_do", "do_while"],
          "C11": ["merge", "flat_map", "flat_map_indexed", "merge_all", "concat_map", "merge_mc"],
          "C12": ["switch_map", "switch_map_indexed", "flat_map_latest", "switch_latest"],
          "C13": ["zip", "combine_latest", "with_latest_from", "fork_join", "amb"]}["C10"]
@@ -28,130 +28,331 @@ def run(chk):
 
 
 def replay(chk, path):
+    import json
+    rep = json.load(open(path))
+    if rep.get("family") == "cold_scenarios":
+        bad = _cold_check(rep["case"])
+        if bad:
+            print(json.dumps({"case": rep["case"], "got": bad[0], "expected": bad[1], "status": bad[2]},
+                             indent=1, default=repr))
+            print(f"VIOLATION property=C10 replay={path}")
+            return 1
+        print(f"[C10] replay {path}: implementation agrees with the reference semantics on this case")
+        return 0
+    if "rerun" in rep:
+        v, gi, gt = comb_table.rerun_case(rep["rerun"], ORACLE)
+        if v:
+            print(json.dumps({"operator": rep["operator"], "machine": rep["machine"], "inputs (now, event)": gi,
+                              "observed trace": gt, "what": v}, indent=1))
+            print(f"VIOLATION property=C10 replay={path}")
+            return 1
+        print(f"[C10] replay {path}: the oracle is satisfied on this case now")
+        return 0
     print(open(path).read())
     return 1
 
 
 # ---- oracle-only scenarios: cold synchronous sources and non-trampolining schedulers ------------
-def _expected(op, seqs, count=None):
-    """reference semantics over per-source (elements, terminal) with terminal in 'C','E',None"""
+# case = {"op", "scheduler": "trampoline" | "immediate", "sources": [{"kind", "xs", "end", "factory"?}], "count",
+#         "cond": [True | False | "raise", ...], "raise_at": int | None, "handler": "ok" | "raise"}
+#   source kinds: "cold" (library from_iterable [+ throw], runs on the scheduler passed to subscribe),
+#                 "sync" (own Observable: emits xs and terminates directly inside subscribe()),
+#                 "hot" (Subject, fed after subscribe() in source order), "future" (a resolved / failed
+#                 concurrent.futures.Future: one element + completion, or an error)
+# Side effects of the callbacks the operators take (lazy iterables, for_in's mapper, on_error_resume_next's
+# factories, while_do's condition, catch's handler) are written INTO the output sequence as marker tuples, so
+# that their position relative to the elements -- i.e. laziness and order -- is part of what is compared.
+COLD_OPS = ["concat", "concat_lazy", "start_with", "catch", "catch_lazy", "oern", "repeat", "retry", "while_do",
+            "do_while", "for_in", "catch_handler"]
+
+
+def _expected(case):
+    """reference semantics: the property text executed over per-source (elements, terminal)"""
+    op = case["op"]
+    seqs = [(s["xs"], s["end"]) for s in case["sources"]]
+    n = len(seqs)
     out = []
-    if op in ("concat", "start_with"):
-        for xs, t in seqs:
+    if op in ("concat", "concat_lazy", "start_with", "for_in"):
+        for j, (xs, t) in enumerate(seqs):
+            if op in ("concat_lazy", "for_in"):
+                out.append(["produce", j])
+                if op == "for_in" and case.get("raise_at") == j:
+                    return out, "E"
             out += xs
             if t == "E":
                 return out, "E"
             if t is None:
                 return out, None
+        if op == "concat_lazy":
+            out.append(["produce", n])
         return out, "C"
-    if op == "catch":
-        for i, (xs, t) in enumerate(seqs):
+    if op in ("catch", "catch_lazy"):
+        for j, (xs, t) in enumerate(seqs):
+            if op == "catch_lazy":
+                out.append(["produce", j])
             out += xs
             if t == "C":
                 return out, "C"
             if t is None:
                 return out, None
-        return out, "E"
+        if op == "catch_lazy":
+            out.append(["produce", n])
+        return out, ("E" if n else "C")
     if op == "oern":
-        for xs, t in seqs:
+        prev = None
+        for k, (xs, t) in enumerate(seqs):
+            if case["sources"][k].get("factory"):
+                out.append(["factory", k, prev])
             out += xs
             if t is None:
                 return out, None
+            prev = "E" if t == "E" else None
         return out, "C"
     if op == "repeat":
         xs, t = seqs[0]
-        for _ in range(count):
+        for _ in range(case["count"]):
             out += xs
             if t != "C":
                 return out, t
         return out, "C"
     if op == "retry":
         xs, t = seqs[0]
-        for i in range(count):
+        for i in range(case["count"]):
             out += xs
             if t != "E":
                 return out, t
-        return out, ("E" if count > 0 else "C")
+        return out, ("E" if case["count"] > 0 else "C")
+    if op in ("while_do", "do_while"):
+        xs, t = seqs[0]
+        if op == "do_while":
+            out += xs
+            if t != "C":
+                return out, t
+        j = 0
+        while True:
+            out.append(["cond", j])
+            c = case["cond"][j] if j < len(case["cond"]) else False
+            j += 1
+            if c == "raise":
+                return out, "E"
+            if not c:
+                return out, "C"
+            out += xs
+            if t != "C":
+                return out, t
+    if op == "catch_handler":
+        xs, t = seqs[0]
+        out += xs
+        if t != "E":
+            return out, t
+        out.append(["handler", "source error", "source"])
+        if case["handler"] == "raise":
+            return out, "E"
+        xs, t = seqs[1]
+        return out + xs, t
     raise AssertionError(op)
 
 
-def cold_scenarios(chk):
+def _cold_gen(rng):
+    op = rng.choice(COLD_OPS)
+    case = {"op": op, "scheduler": rng.choice(["trampoline", "immediate"]), "count": None}
+    single = op in ("repeat", "retry", "while_do", "do_while")
+    if single:
+        nsrc = 1
+    elif op == "catch_handler":
+        nsrc = 2
+    elif op == "start_with":
+        nsrc = 2
+    else:
+        nsrc = rng.choice([0, 1, 2, 2, 3, 3, 3])
+    srcs = []
+    for i in range(nsrc):
+        kinds = ["cold", "sync"] if single else ["cold", "sync", "hot"]
+        if op == "oern" or (op == "catch_handler" and i == 1) or (op == "while_do" and rng.random() < 0.2):
+            kinds = kinds + ["future"]
+        kind = rng.choice(kinds)
+        if kind == "future":
+            failed = rng.random() < 0.4
+            srcs.append({"kind": kind, "xs": [] if failed else [rng.randrange(10)], "end": "E" if failed else "C"})
+            if op == "while_do":
+                srcs = srcs[-1:]
+            continue
+        xs = [rng.randrange(10) for _ in range(rng.choice([0, 1, 2, 3]))]
+        t = rng.choice(["C", "C", "E"] + ([None] if kind == "hot" else []))
+        srcs.append({"kind": kind, "xs": xs, "end": t})
+    if op == "start_with":
+        srcs[0] = {"kind": "sync", "xs": srcs[0]["xs"], "end": "C"}
+    if op == "oern":
+        for s in srcs:
+            s["factory"] = rng.random() < 0.5
+    if op in ("repeat", "retry"):
+        case["count"] = rng.choice([0, 1, 2, 3])
+    if op in ("while_do", "do_while"):
+        case["cond"] = [rng.choice([True, True, True, False, "raise"] if rng.random() < 0.3 else [True, True, False])
+                        for _ in range(rng.choice([0, 1, 2, 3]))]
+    if op == "for_in":
+        case["raise_at"] = rng.randrange(nsrc) if nsrc and rng.random() < 0.15 else None
+    if op == "catch_handler":
+        case["handler"] = "raise" if rng.random() < 0.25 else "ok"
+    case["sources"] = srcs
+    return case
+
+
+def _cold_run(case):
+    import concurrent.futures
     import reactivex as rx
     from reactivex import operators as ops
+    from reactivex.disposable import Disposable
     from reactivex.scheduler import ImmediateScheduler
     from reactivex.subject import Subject
     import k2
-    n = 120 if chk.tier == "quick" else 1500
+    op = case["op"]
+    sched = ImmediateScheduler() if case["scheduler"] == "immediate" else None
+    specs = case["sources"]
+    out, term = [], []
+    subjects, obs_list, errors = [], [], []
+    for k, sp in enumerate(specs):
+        err = k2.UserError(15)
+        errors.append(err)
+        subjects.append(None)
+        if sp["kind"] == "cold":
+            parts = [rx.from_iterable(list(sp["xs"]))]
+            if sp["end"] == "E":
+                parts.append(rx.throw(err))
+            obs_list.append(rx.concat(*parts) if len(parts) > 1 else parts[0])
+        elif sp["kind"] == "sync":
+            def subscribe(observer, scheduler=None, sp=sp, err=err):
+                for x in sp["xs"]:
+                    observer.on_next(x)
+                if sp["end"] == "E":
+                    observer.on_error(err)
+                elif sp["end"] == "C":
+                    observer.on_completed()
+                return Disposable()
+            obs_list.append(rx.Observable(subscribe))
+        elif sp["kind"] == "future":
+            f = concurrent.futures.Future()
+            if sp["end"] == "E":
+                f.set_exception(err)
+            else:
+                f.set_result(sp["xs"][0])
+            obs_list.append(f)
+        else:
+            subjects[-1] = Subject()
+            obs_list.append(subjects[-1])
+
+    def lazy():
+        def gen():
+            for j, o in enumerate(obs_list):
+                out.append(["produce", j])
+                yield o
+            out.append(["produce", len(obs_list)])
+        return gen()
+
+    if op == "concat":
+        o = rx.concat(*obs_list)
+    elif op == "concat_lazy":
+        o = rx.concat_with_iterable(lazy())
+    elif op == "start_with":
+        o = obs_list[1].pipe(ops.start_with(*specs[0]["xs"]))
+    elif op == "catch":
+        o = rx.catch(*obs_list)
+    elif op == "catch_lazy":
+        o = rx.catch_with_iterable(lazy())
+    elif op == "oern":
+        def factory(k):
+            def f(ex):
+                if ex is None:
+                    what = None
+                elif k > 0 and ex is errors[k - 1]:
+                    what = "E"
+                else:
+                    what = f"unexpected argument {ex!r}"
+                out.append(["factory", k, what])
+                return obs_list[k]
+            return f
+        o = rx.on_error_resume_next(*[factory(k) if sp.get("factory") else obs_list[k]
+                                      for k, sp in enumerate(specs)])
+    elif op == "repeat":
+        o = obs_list[0].pipe(ops.repeat(case["count"]))
+    elif op == "retry":
+        o = obs_list[0].pipe(ops.retry(case["count"]))
+    elif op in ("while_do", "do_while"):
+        calls = [0]
+
+        def cond(src):
+            j = calls[0]
+            calls[0] += 1
+            out.append(["cond", j])
+            c = case["cond"][j] if j < len(case["cond"]) else False
+            if c == "raise":
+                raise k2.UserError(16)
+            return c
+        o = (ops.do_while if op == "do_while" else ops.while_do)(cond)(obs_list[0])
+    elif op == "for_in":
+        def mapper(j):
+            out.append(["produce", j])
+            if case.get("raise_at") == j:
+                raise k2.UserError(16)
+            return obs_list[j]
+        o = rx.for_in(range(len(obs_list)), mapper)
+    elif op == "catch_handler":
+        def handler(e, src):
+            out.append(["handler", "source error" if e is errors[0] else f"unexpected {e!r}",
+                        "source" if src is obs_list[0] else "not the source"])
+            if case["handler"] == "raise":
+                raise k2.UserError(16)
+            return obs_list[1]
+        o = obs_list[0].pipe(ops.catch(handler))
+    else:
+        raise AssertionError(op)
+    o.subscribe(out.append, lambda e: term.append("E"), lambda: term.append("C"), scheduler=sched)
+    for k, (sp, s) in enumerate(zip(specs, subjects)):
+        if s is None:
+            continue
+        for x in sp["xs"]:
+            s.on_next(x)
+        if sp["end"] == "C":
+            s.on_completed()
+        elif sp["end"] == "E":
+            s.on_error(errors[k])
+    return out, term
+
+
+def _cold_check(case):
+    """None if the implementation agrees with the reference, else (got, expected, status)"""
+    exp = _expected(case)
+    status, r = lib.with_timeout(10, _cold_run, case)
+    if status != "ok":
+        return (None, list(exp), status)
+    out, term = r
+    got = (out, term[0] if term else None)
+    if got != exp or len(term) > 1:
+        return ([out, term], list(exp), status)
+    return None
+
+
+def cold_scenarios(chk):
+    n = 600 if chk.tier == "quick" else 4000
     hist = {}
     nontrivial = set()
     for _ in range(n):
-        op = chk.rng.choice(["concat", "start_with", "catch", "oern", "repeat", "retry"])
-        sched_kind = chk.rng.choice(["trampoline", "immediate"])
-        sched = ImmediateScheduler() if sched_kind == "immediate" else None
-        nsrc = 1 if op in ("repeat", "retry") else chk.rng.choice([2, 3])
-        specs = []
-        for i in range(nsrc):
-            kind = "cold" if op in ("repeat", "retry") else chk.rng.choice(["cold", "hot"])
-            xs = [chk.rng.randrange(10) for _ in range(chk.rng.choice([0, 1, 2, 3]))]
-            t = chk.rng.choice(["C", "C", "E"] + ([None] if kind == "hot" else []))
-            specs.append((kind, xs, t))
-        if op == "start_with":
-            specs[0] = ("cold", specs[0][1], "C")
-            specs = specs[:2]
-        count = chk.rng.choice([0, 1, 2, 3]) if op in ("repeat", "retry") else None
-        subjects = []
-        obs_list = []
-        for kind, xs, t in specs:
-            if kind == "cold":
-                parts = [rx.from_iterable(list(xs))]
-                if t == "E":
-                    parts.append(rx.throw(k2.UserError(15)))
-                o = rx.concat(*parts) if len(parts) > 1 else parts[0]
-                obs_list.append(o)
-                subjects.append(None)
-            else:
-                s = Subject()
-                subjects.append(s)
-                obs_list.append(s)
-        if op == "concat":
-            o = rx.concat(*obs_list)
-        elif op == "start_with":
-            o = obs_list[1].pipe(ops.start_with(*specs[0][1]))
-        elif op == "catch":
-            o = rx.catch(*obs_list)
-        elif op == "oern":
-            o = rx.on_error_resume_next(*obs_list)
-        elif op == "repeat":
-            o = obs_list[0].pipe(ops.repeat(count))
-        else:
-            o = obs_list[0].pipe(ops.retry(count))
-        out, term = [], []
-        status, _ = lib.with_timeout(10, lambda: o.subscribe(out.append, lambda e: term.append("E"),
-                                                              lambda: term.append("C"), scheduler=sched))
-        for (kind, xs, t), s in zip(specs, subjects):
-            if s is None:
-                continue
-            for x in xs:
-                s.on_next(x)
-            if t == "C":
-                s.on_completed()
-            elif t == "E":
-                s.on_error(k2.UserError(15))
+        case = _cold_gen(chk.rng)
+        op, sched_kind, specs = case["op"], case["scheduler"], case["sources"]
         chk.cov["evaluations"] += 1
-        key = f"{op}/{sched_kind}/" + "+".join(k for k, _, _ in specs)
+        key = f"{op}/{sched_kind}/" + "+".join(s["kind"] for s in specs)
         hist[key] = hist.get(key, 0) + 1
-        seqs = [(xs, t) for _, xs, t in specs]
-        exp = _expected(op, seqs, count)
-        got = (out, term[0] if term else None)
-        if status != "ok" or got != exp or len(term) > 1:
-            chk.violation(f"C10|cold|{op}|{sched_kind}|{'+'.join(k for k, _, _ in specs)}",
-                          {"operator": op, "scheduler": sched_kind, "count": count,
-                           "sources (kind, elements, terminal)": specs, "got": got, "expected": exp,
-                           "status": status,
+        bad = _cold_check(case)
+        if bad:
+            chk.violation(f"C10|cold|{op}|{sched_kind}|{'+'.join(s['kind'] for s in specs)}",
+                          {"family": "cold_scenarios", "case": case, "got": bad[0], "expected": bad[1],
+                           "status": bad[2],
                            "oracle": "concatenation of the consumed sources' elements with the operator's "
-                                     "continuation rule"}, size=sum(len(x) for _, x, _ in specs) + nsrc)
-        elif len(out) >= 2:
-            nontrivial.add(repr((op, sched_kind, specs, count)))
+                                     "continuation rule; marker tuples = calls of the lazy iterable / mapper / "
+                                     "factory / condition / handler at that point of the output"},
+                          size=sum(len(s["xs"]) for s in specs) + len(specs))
+        elif len(_expected(case)[0]) >= 2:
+            nontrivial.add(repr(case))
     return nontrivial, hist
 
 
@@ -159,7 +360,6 @@ _run_machines = run
 
 
 def run(chk):           # machines + correspondence + oracle, then the cold/synchronous scenarios
-    import lib as _lib
     chk_finish = chk.finish
     holder = {}
 
@@ -171,9 +371,18 @@ def run(chk):           # machines + correspondence + oracle, then the cold/sync
     chk.finish = chk_finish
     nt, hist = cold_scenarios(chk)
     chk.cov["distinct_nontrivial"] += len(nt)
-    chk.cov["input_distribution"]["cold_sync_scenarios"] = hist
-    chk.cov["rule"] += ("; plus oracle-only scenarios: concat/start_with/catch/on_error_resume_next/repeat/retry over "
-                        "mixes of cold synchronous sources (terminating inside subscribe) and hot subjects, on the "
-                        "default trampoline and on ImmediateScheduler")
+    by_op = {}
+    for k, v in hist.items():
+        by_op[k.split("/")[0]] = by_op.get(k.split("/")[0], 0) + v
+    chk.cov["input_distribution"]["cold_sync_scenarios"] = {"per_operator": by_op, "cases": sum(hist.values()),
+                                                            "distinct_shapes": len(hist)}
+    chk.cov["rule"] += ("; plus oracle-only scenarios (cold_scenarios): concat / concat_with_iterable(lazy generator) / "
+                        "start_with / catch / catch_with_iterable(lazy generator) / on_error_resume_next (plain, "
+                        "factory and Future arguments) / repeat / retry / while_do / do_while / for_in / "
+                        "catch(handler) over 0-3 sources mixing library cold sources, sources terminating directly "
+                        "inside subscribe(), hot subjects and resolved Futures, on the default trampoline and on "
+                        "ImmediateScheduler; calls of the lazy iterable, for_in's mapper, the factories (with the "
+                        "argument they receive), the condition and the handler (with its arguments) are written "
+                        "into the compared output as markers, so laziness and order are judged")
     a, kw = holder["args"]
     return chk.finish(*a, **kw)
